@@ -51,7 +51,7 @@ PROPS = {
             "quick": {"cases": 2400, "wall_s": 75, "seed": 1, "minimise_s": 40},
             "thorough": {"cases": 60000, "wall_s": 1500, "seed": 1001, "minimise_s": 120},
         },
-        "probes_wanted": ["via=cli", "list_is_part_of_document", "duplicate_or_no_pointer", "jobs>1", "mutex_contended", "unique_id_tie", "score_tie_skipped", "o3_compared",
+        "probes_wanted": ["via=cli", "cli_page_compared_with_library", "same_objects_on_both_sides", "edited_after_first_compare", "list_is_part_of_document", "duplicate_or_no_pointer", "jobs>1", "mutex_contended", "unique_id_tie", "score_tie_skipped", "o3_compared",
                           "matched_by_unique_id", "matched_by_pointer", "matched_by_similarity"],
         "shrink_lists": [["compare", "left_drop"], ["compare", "right_drop"]],
         "shrink_scalars": [_set(["compare", "diff_page"], False), _set(["compare", "notifier"], ""),
@@ -240,7 +240,7 @@ PROPS = {
             "quick": {"cases": 3200, "wall_s": 75, "seed": 1, "minimise_s": 40},
             "thorough": {"cases": 200000, "wall_s": 1500, "seed": 1001, "minimise_s": 120},
         },
-        "probes_wanted": ["cache_warmed_by_read", "op:doc.addnode.dup", "op:node.delete", "op:node.setnodes", "op:doc.delete", "op:doc.setnodes", "op:ro.warnings", "op:ro.compare", "op:ro.publish",
+        "probes_wanted": ["cache_warmed_by_read", "op:par", "op:ro.merge", "op:ro.mergenodes", "op:doc.addnode.dup", "op:node.delete", "op:node.setnodes", "op:doc.delete", "op:doc.setnodes", "op:ro.warnings", "op:ro.compare", "op:ro.publish",
                           "op:ro.comparenodes", "op:ro.deepcopy", "op:ro.filter", "op:ro.query", "op:ro.diffpage", "op:fam.sethusband.nil", "op:fam.addchild"],
         "shrink_lists": [["history", "ops"]],
         "components": comp(["file system for the publish operation: simulated disk", "q (query engine): real, instrumented for map order only"]),
